@@ -172,6 +172,128 @@ fn target_no_panic(path: &str, vals: &[Vec<u8>]) -> i32 {
     }
 }
 
+/// c12_two_setters: vals = a0,d0,aa,da,ab,db (u64 ranks 0..5), pos (u8).
+/// The window between "spec updated" and "gate updated" of set_new_spec(A) is entered natively
+/// through a registered additional writer: WritersHandle::reconfigure asks every additional
+/// writer for its max_log_level() exactly there. When armed, that call lets a second thread run
+/// set_new_spec(B) (handle clone) and waits for it (bounded) - if the implementation holds the
+/// spec lock across the window the second thread blocks and simply finishes afterwards.
+fn two_setters(vals: &[Vec<u8>]) -> i32 {
+    use flexi_logger::LoggerHandle;
+    use std::sync::mpsc;
+    use std::sync::Mutex;
+    let r: Vec<u64> = vals.iter().take(6).map(|v| u64_of(v)).collect();
+    let (aa, da, ab, db) = (r[2], r[3], r[4], r[5]);
+    let spec_of = |a: u64, d: u64| {
+        let mut b = LogSpecification::builder();
+        b.default(filter_of(d)).module("a", filter_of(a));
+        b.build()
+    };
+    struct WindowWriter {
+        armed: std::sync::atomic::AtomicBool,
+        go: Mutex<Option<mpsc::Sender<()>>>,
+        done: Mutex<Option<mpsc::Receiver<()>>>,
+    }
+    impl LogWriter for WindowWriter {
+        fn write(&self, _now: &mut DeferredNow, _r: &log::Record) -> std::io::Result<()> {
+            Ok(())
+        }
+        fn flush(&self) -> std::io::Result<()> {
+            Ok(())
+        }
+        fn max_log_level(&self) -> LevelFilter {
+            if self.armed.swap(false, Ordering::SeqCst) {
+                if let Some(tx) = self.go.lock().unwrap().take() {
+                    tx.send(()).ok();
+                }
+                if let Some(rx) = self.done.lock().unwrap().as_ref() {
+                    rx.recv_timeout(std::time::Duration::from_millis(400)).ok();
+                }
+            }
+            LevelFilter::Off
+        }
+    }
+    let (go_tx, go_rx) = mpsc::channel::<()>();
+    let (done_tx, done_rx) = mpsc::channel::<()>();
+    let w = Box::new(WindowWriter {
+        armed: std::sync::atomic::AtomicBool::new(false),
+        go: Mutex::new(Some(go_tx)),
+        done: Mutex::new(Some(done_rx)),
+    });
+    let wptr: &'static WindowWriter = unsafe { &*(&*w as *const WindowWriter) };
+    let (logger, h1): (Box<dyn Log>, LoggerHandle) =
+        Logger::with(spec_of(r[0], r[1])).do_not_log().add_writer("W", w).build().expect("build");
+    let h2 = h1.clone();
+    let sb = spec_of(ab, db);
+    let t2 = std::thread::spawn(move || {
+        go_rx.recv().ok();
+        h2.set_new_spec(sb);
+        done_tx.send(()).ok();
+        std::mem::forget(h2); // a dropped clone would shut the writers down
+    });
+    wptr.armed.store(true, Ordering::SeqCst);
+    h1.set_new_spec(spec_of(aa, da));
+    t2.join().ok();
+    // observe the final spec through enabled() on plain targets and the facade's gate
+    let rank = |target: &str| {
+        let mut r = 0;
+        for (i, l) in [Level::Error, Level::Warn, Level::Info, Level::Debug, Level::Trace].iter().enumerate() {
+            if logger.enabled(&log::Metadata::builder().level(*l).target(target).build()) {
+                r = i as u64 + 1;
+            }
+        }
+        r
+    };
+    let (fa, fd) = (rank("ab"), rank("b"));
+    let gate = log::max_level() as usize as u64;
+    println!("A=(a={aa},default={da}) B=(a={ab},default={db}) final spec=(a={fa},default={fd}) gate={gate}");
+    std::mem::forget(h1);
+    let whole = (fa, fd) == (aa, da) || (fa, fd) == (ab, db);
+    if !whole || gate < fa.max(fd) {
+        println!("REPRODUCED: final spec/gate inconsistent (gate admits up to {gate}, spec enables up to {})", fa.max(fd));
+        1
+    } else {
+        0
+    }
+}
+
+/// c05_rejected_push_then_pop: vals = a0,d0,a1,d1 (u64 ranks).
+/// push_temp_spec(S1); parse_and_push_temp_spec(malformed) -> Err; pop_temp_spec(); pop_temp_spec().
+fn rejected_push_then_pop(vals: &[Vec<u8>]) -> i32 {
+    let r: Vec<u64> = vals.iter().take(4).map(|v| u64_of(v)).collect();
+    let spec_of = |a: u64, d: u64| {
+        let mut b = LogSpecification::builder();
+        b.default(filter_of(d)).module("a", filter_of(a));
+        b.build()
+    };
+    let (logger, mut h) = Logger::with(spec_of(r[0], r[1])).do_not_log().build().expect("build");
+    let rank = |target: &str| {
+        let mut r = 0;
+        for (i, l) in [Level::Error, Level::Warn, Level::Info, Level::Debug, Level::Trace].iter().enumerate() {
+            if logger.enabled(&log::Metadata::builder().level(*l).target(target).build()) {
+                r = i as u64 + 1;
+            }
+        }
+        r
+    };
+    h.push_temp_spec(spec_of(r[2], r[3]));
+    let res = h.parse_and_push_temp_spec("x y");
+    let after_reject = (rank("ab"), rank("b"));
+    h.pop_temp_spec();
+    let after_pop = (rank("ab"), rank("b"));
+    println!(
+        "S0=({},{}) S1=({},{}) rejected={} active after reject={:?} after pop={:?}",
+        r[0], r[1], r[2], r[3], res.is_err(), after_reject, after_pop
+    );
+    std::mem::forget(h);
+    if res.is_err() && (after_reject != (r[2], r[3]) || after_pop != (r[0], r[1])) {
+        println!("REPRODUCED: a rejected specification string changed the stack: pop re-activated {:?} instead of S0", after_pop);
+        1
+    } else {
+        0
+    }
+}
+
 fn main() {
     let args: Vec<String> = std::env::args().collect();
     if args.len() < 3 {
@@ -182,6 +304,8 @@ fn main() {
     let code = match args[1].as_str() {
         "enabled_brace_ceiling" => enabled_brace_ceiling(&vals),
         "target_no_panic" => target_no_panic(&args[2], &vals),
+        "two_setters" => two_setters(&vals),
+        "rejected_push_then_pop" => rejected_push_then_pop(&vals),
         other => {
             eprintln!("unknown replayer {other}");
             3
